@@ -4,6 +4,7 @@ import PgModel.C05Codec
 import PgModel.C05Store
 import PgModel.C05Typed
 import PgModel.C05Handles
+import PgModel.C05Dna
 import PgGen.C05Sig
 open Pg Pg.C05
 
@@ -228,6 +229,42 @@ def runUser (cfg : HCfg) : HSt → List (Option Nat) → List UOp → List J
       let (s1, o) := hStep cfg s (mk h)
       houtToJ o :: runUser cfg s1 tbl rest
 
+/-! DNA wire: a value is null | int | "str" | {"q":[n,d]}; a nest a value | {"l":[…]} | {"t":[…]} -/
+
+def gvalOfJ : J → Option Geno.Val
+  | .null => some .none
+  | .int i => some (.int i)
+  | .str s => some (.str s)
+  | .obj [("q", .arr [.int n, .int d])] => if d > 0 then some (.flt n d.toNat) else none
+  | _ => none
+
+partial def nestOfJ : J → Option Geno.Nest
+  | .obj [("l", .arr xs)] => (xs.mapM nestOfJ).map .list
+  | .obj [("t", .arr xs)] => (xs.mapM nestOfJ).map .tuple
+  | j => (gvalOfJ j).map .v
+
+def gvalToJ : Geno.Val → J
+  | .none => .null
+  | .int i => .int i
+  | .str s => .str s
+  | .flt n d => .obj [("q", .arr [.int n, .int d])]
+
+partial def nestToJ5 : Geno.Nest → J
+  | .v x => gvalToJ x
+  | .list xs => .obj [("l", .arr (xs.map nestToJ5))]
+  | .tuple xs => .obj [("t", .arr (xs.map nestToJ5))]
+
+/-- The float text layer of the wire: a ratio `n/d` is the token "n/d". -/
+def wireFloat : FloatText :=
+  { ftok := fun n d => reprInt n ++ '/' :: natDigits d,
+    fparse := fun t =>
+      match splitSlash t with
+      | [a, b] =>
+        match parseInt a, parseInt b with
+        | some n, some d => if d > 0 then some (n, d.toNat) else none
+        | _, _ => none
+      | _ => none }
+
 def handle (j : J) : J :=
   match j.getStr? "op" with
   | some "codec" =>
@@ -259,6 +296,28 @@ def handle (j : J) : J :=
       let (_, outs) := run c [] ops
       .obj [("outs", .arr (outs.map outToJ))]
     | _, _ => bad "store"
+  | some "dna" =>
+    match (j.get? "nest").bind nestOfJ, (j.getArr? "cloneable").bind (·.mapM (·.asStr?)) with
+    | some nest, some cl =>
+      let md : Option (List (Key × Tree)) := match j.get? "meta" with
+        | none | some .null => some []
+        | some t => match treeOfJ t with
+          | some (.dict kvs) => some kvs
+          | _ => none
+      match md, Geno.parse nest with
+      | none, _ => bad "dna meta"
+      | some _, none => .obj [("parse", .str "ValueError")]
+      | some md, some d =>
+        let env : ClassEnv := ⟨[]⟩
+        let m : MDNA := ⟨d, md, cl.map ofS, false⟩
+        let jv := dnaToJson wireFloat env m
+        .obj [("json", jvToJ jv),
+              ("rt", match dnaFromJson wireFloat env jv with
+                | .ok r => .obj [("ok", .obj [("nest", nestToJ5 (compact r.dna)),
+                                               ("meta", treeToJ (.dict r.md)),
+                                               ("cloneable", .arr (r.cloneable.map fun c => .str (toS c)))])]
+                | .error e => .obj [("err", .str (errName e))])]
+    | _, _ => bad "dna"
   | some "hstore" =>
     match j.getStr? "cfg", (j.getArr? "ops").bind (·.mapM uopOfJ) with
     | some cfg, some ops =>
